@@ -46,6 +46,9 @@ type Oblig struct {
 	goal   string // formula that must be valid under the assumptions
 	Text   string
 	Cover  bool // cover query: expected sat
+	Lazy   bool   // discharged only on demand (the reachability half of a call-site cover)
+	Before *Oblig // for a cover after a call: the cover of the call itself
+	QFOnly bool // cover over the quantifier-free assumptions only (cheap consistency check after a call)
 	Bound  bool
 	Result *SolverResult
 	Query  string
@@ -92,6 +95,7 @@ type FnCtx struct {
 	localMaps map[string]bool
 	refArr   map[string]bool
 	siteCount int
+	coverN   int
 	rangeN   int
 	relMode  bool
 	relLeft  *Frame
